@@ -252,7 +252,9 @@ def dict_protocol(prog, res, rule: str, *, only_modify: bool = False) -> int:
                 res.touch(td)
                 res.touch(fd)
                 keys = sorted(k.value for k in d.keys)
-                probs = dictsym.consume(prog, ci, fd, param, d, dictsym.facts_of(p), f"{ci.name}.to_dict() -> from_dict")
+                # keys that some arm of to_dict writes with a value carry object state: they must not be missing on another arm
+                state_keys = {k.value for _p2, d2 in arms for k, v in zip(d2.keys, d2.values) if not (isinstance(v, ast.Constant) and v.value is None)} - {k.value for k in d.keys}
+                probs = dictsym.consume(prog, ci, fd, param, d, dictsym.facts_of(p), f"{ci.name}.to_dict() -> from_dict", state_keys)
                 if probs:
                     for pr in probs:
                         res.violation(rule, pr.func, pr.node, pr.message, key_extra=f"{ci.name}-roundtrip-{pr.key}")
@@ -705,6 +707,61 @@ def rule_r9(prog, res) -> None:
         raise AnalysisError("C11.R9: no to_files / from_files pair found")
 
 
+def rule_r10(prog, res) -> None:
+    """constructors keep what they are given: an attribute that has the name of a constructor parameter is
+    initialised from THAT parameter (possibly converted), not from another one — unless the path has established
+    that the parameter is None and a fallback is computed. A copy-paste slip such as `self.sum_weights =
+    float(num_records)` is invisible while objects are built through another constructor (e.g. compute() via
+    __new__) and only shows when the object is restored from its stored form. Decided on the symbolic store of
+    every __init__ / alternative constructor of the package."""
+    from .. import symx
+
+    n = 0
+    for fi in prog.funcs:
+        if not (fi.name in ("__init__", "__post_init__") or fi.is_classmethod) or fi.cls is None or fi.is_abstract:
+            continue
+        params = set(fi.param_names()) - {"self", "cls"}
+        if not params or not any(isinstance(x, ast.Attribute) and isinstance(x.ctx, ast.Store) and x.attr in params for x in walk_no_nested(fi.node)):
+            continue
+        try:
+            paths = symx.explore(prog, fi, inline=lambda *a_: False, skip_tests=("logger",), max_paths=400)
+        except symx.TooManyPaths:
+            continue
+        res.touch(fi)
+        reported = set()
+        for p in paths:
+            if p.outcome == "raise":
+                continue
+            facts = {unparse(t): pol for t, pol in p.literals()}
+            for key, val in p.store.items():
+                if not (isinstance(key, str) and key.count(".") == 1):
+                    continue
+                obj, attr = key.split(".")
+                if attr not in params or obj in params:
+                    continue
+                n += 1
+                names = {y.id for y in ast.walk(val) if isinstance(y, ast.Name)}
+                others = sorted((names & params) - {attr})
+                if attr in names or not others:
+                    continue
+                absent = facts.get(f"{attr} is None") is True or facts.get(f"{attr} is not None") is False or facts.get(attr) is False
+                if absent or (fi.short, attr) in reported:
+                    continue
+                reported.add((fi.short, attr))
+                res.violation(
+                    "C11.R10",
+                    fi,
+                    fi.node,
+                    f"{fi.cls.name}.{fi.name} stores `{attr} = {unparse(val)[:50]}`: the attribute is initialised from the parameter(s) {others}, not from `{attr}` itself — "
+                    f"an object restored through this constructor (from_dict / from file) does not hold the stored value of `{attr}`",
+                    key_extra=f"ctor-field-{fi.cls.name}-{attr}",
+                )
+        if not any(r[0] == fi.short for r in reported):
+            res.ok("C11.R10", res.site(fi), "every attribute named like a parameter is initialised from that parameter", nontrivial=False)
+    if n < 30:
+        raise AnalysisError(f"C11.R10: only {n} parameter-named attribute stores found in constructors, minimum 30")
+
+
 RULES = [
     ("C11.R1", rule_r1, QUICK),
     ("C11.R2", rule_r2, QUICK),
@@ -715,4 +772,5 @@ RULES = [
     ("C11.R7", rule_r7, QUICK),
     ("C11.R8", rule_r8, QUICK),
     ("C11.R9", rule_r9, QUICK),
+    ("C11.R10", rule_r10, QUICK),
 ]
